@@ -223,6 +223,8 @@ static void checkpoint(Case& C, Rng& r, bool final_cp) {
         if (nat.cur_min >= 2) count("hll4_curmin_ge2");
         if (nat.cur_min >= 4) count("hll4_curmin_ge4");
         if (nat.aux_count > 0) count("hll4_aux_present");
+        if (nat.aux_count * 4 > (3u << m.lg_k)) count("hll4_native_over_75pct_slots_are_exceptions");
+        if (nat.aux_count > 48) count("hll4_native_more_than_48_exceptions");
         if (nat.aux_count > 0 && nat.cur_min >= 2) count("hll4_aux_present_curmin_ge2");
         if (K.prev_cur_min >= 0 && static_cast<int>(nat.cur_min) > K.prev_cur_min) {
           count("hll4_curmin_shift_observed");
@@ -264,9 +266,21 @@ static void checkpoint(Case& C, Rng& r, bool final_cp) {
     VF_CHECK(std::isfinite(K.est) && std::isfinite(K.comp) && K.est >= 0 && K.comp >= 0, tn + "|estimate|not-finite-nonnegative", bd + " comp=" + str(K.comp));
     // --- copies converted to every type (and a plain copy) hold the same content
     if (do_conv) {
+      size_t ge15 = 0;
+      if (nat.err.empty() && nat.mode == M_HLL) for (uint8_t v : m.regs) ge15 += v >= 15;
+      const bool mostly_ge15 = ge15 * 4 > m.regs.size() * 3;
       for (int t = 0; t < 3; ++t) {
-        hll_sketch c(s, tgt(t));
         const std::string kp = tn + "|converted-to-" + type_name(t);
+        std::unique_ptr<hll_sketch> cp;
+        try { cp.reset(new hll_sketch(s, tgt(t))); }
+        catch (const std::exception& e) { checked(); fail(kp + "|conversion-threw", ctx + " slots>=15: " + std::to_string(ge15) + "/" + std::to_string(m.regs.size()) + " what=" + e.what()); continue; }
+        hll_sketch& c = *cp;
+        if (t == 0 && K.type != 0 && nat.err.empty() && nat.mode == M_HLL) {
+          if (ge15 * 2 > m.regs.size()) count(std::string("converted_to_hll4_from_") + tn + "_with_over_50pct_slots_ge15");
+          if (mostly_ge15) count(std::string("converted_to_hll4_from_") + tn + "_with_over_75pct_slots_ge15");
+          if (mostly_ge15 && K.full) count("converted_to_hll4_from_full_size_sketch_with_over_75pct_slots_ge15");
+          if (ge15 > 48) count("converted_to_hll4_with_more_than_48_exception_slots");
+        }
         Decoded dc = read_native(c);
         check_content(dc, m, model_sorted, kp, ctx);
         if (dc.err.empty()) VF_CHECK(dc.type == t, kp + "|target-type", ctx);
@@ -341,7 +355,10 @@ void run_case(uint64_t idx, Rng& r) {
   const bool bigset = idx < 8;
   const bool levels = !bigset && r.chance(0.08);
   if (bigset) lg_k = 18 + static_cast<unsigned>(idx % 4);
-  if (levels) lg_k = static_cast<unsigned>(r.range(4, 7));
+  //  highfill (a third of the levels cases): lg_k 4..9, the inputs are the whole pool of coupons with value >= 15, so that
+  //          most slots of the HLL_6/HLL_8 sketches hold values >= 15; converted to HLL_4 every such slot is an exception
+  const bool highfill = levels && r.chance(0.35);
+  if (levels) lg_k = static_cast<unsigned>(highfill ? r.range(4, 9) : r.range(4, 7));
   C.lg_k = lg_k;
   const uint64_t k = 1ULL << lg_k;
   const uint64_t thr = lg_k >= 8 ? (3 * (k >> 3)) / 4 : 8;               // only used to *place* checkpoints and choose lengths
@@ -373,7 +390,17 @@ void run_case(uint64_t idx, Rng& r) {
     for (uint64_t i = 0; i < 10; ++i) cps.push_back(first + (stop_at - first) * i / 10);
   }
   std::vector<uint64_t> lvl_keys;
-  if (levels) {
+  if (levels && highfill) {
+    if (lg_k <= 7 && r.chance(0.4)) lvl_keys = level_stream(r, lg_k, 1, 0);      // cur_min 1 first (natively fed HLL_4)
+    std::vector<uint64_t> hv;
+    for (const HiItem& h : hi_pool()) hv.push_back(h.x);
+    r.shuffle(hv);
+    if (r.chance(0.3)) hv.resize(hv.size() / 2 + r.below(hv.size() / 2));
+    lvl_keys.insert(lvl_keys.end(), hv.begin(), hv.end());
+    n = lvl_keys.size();
+    C.conv_always = true;
+    count("highfill_cases");
+  } else if (levels) {
     unsigned nlevels = static_cast<unsigned>(1 + r.below(3));
     // optionally: one slot that already holds an exception (value v1 >= cur_min + 15) is raised to a larger exception v2
     const HiItem* e1 = nullptr; const HiItem* e2 = nullptr;
